@@ -257,3 +257,24 @@ Fixpoint xsrc_after (s0 : src W) (xs : list (xop W)) : src W :=
   end.
 
 End MaximizeSpec.
+
+Section MultiSpecAux.
+Variable W : world.
+Variable C : cfg.
+Variable MW : mworld W.
+Variable MC : mcfg.
+
+Fixpoint msfinal (s : msstate W MW) (ops : list (mop W)) : msstate W MW :=
+  match ops with
+  | [] => s
+  | o :: r => msfinal (fst (msstep W C MW MC s o)) r
+  end.
+
+Fixpoint msrc_after (s0 : src W) (ops : list (mop W)) : src W :=
+  match ops with
+  | [] => s0
+  | MSrc _ s :: r => msrc_after s r
+  | _ :: r => msrc_after s0 r
+  end.
+
+End MultiSpecAux.
